@@ -2,7 +2,7 @@
 //! S1 complete small scope (all strings), S2 encoder alphabet, S3 end-of-buffer windows at the
 //! production sizes, S4 unary-run boundary tokens.
 
-use super::gen_codec::{for_each_tail, token_body, RUNS};
+use super::gen_codec::{for_each_tail, runs, token_body};
 use super::{found, Found};
 use crate::ctx::{catch, hex, unhex, Ctx, Part, Tier};
 use crate::refmodel::codec;
@@ -285,7 +285,7 @@ fn s4(ctx: &mut Ctx) {
             for last in [false, true] {
                 for sign in [false, true] {
                     for low in [0u8, 1, 127] {
-                        for run in RUNS {
+                        for run in runs() {
                             jobs.push((n, l, align, last, sign, low, run));
                         }
                     }
@@ -323,8 +323,91 @@ fn s4(ctx: &mut Ctx) {
         });
     let mut part = Part::new(
         "S4_run_tokens",
-        "unary runs {0,1,93,94,95,96,255,256,257,511,512,513} x {middle,last coefficient} x sign x low in {0,1,127} x 8 cursor alignments at (n,L) in {(512,625),(1024,1239),(12,90),(16,20)}; each also with a padding bit set, cut to the tight length and truncated by one byte",
+        "unary runs {0..=130, 255, 256, 257, 511, 512, 513} x {middle,last coefficient} x sign x low in {0,1,127} x 8 cursor alignments at (n,L) in {(512,625),(1024,1239),(12,90),(16,20)}; each also with a padding bit set, cut to the tight length and truncated by one byte",
     );
+    part.exhaustive = true;
+    t.into_part(ctx, part);
+}
+
+/// S6: every sequence of coefficient tokens (valid and invalid ones) of length 2..=5 over a small alphabet, and
+/// at production length every PAIR of positions carrying a token of the alphabet inside an otherwise ordinary
+/// body: a decoder that folds per-coefficient verdicts (counts, parities, last-one-wins) must still reject
+/// whenever any coefficient is malformed
+fn s6(ctx: &mut Ctx, thorough: bool) {
+    use super::gen_codec::Bits;
+    // (sign, low, run): +0, -0, +1, -1, +127, -127, +128, -128, 2*128+5, a run of 95 (out of range)
+    let alphabet: Vec<(bool, u8, usize)> = vec![(false, 0, 0), (true, 0, 0), (false, 1, 0), (true, 1, 0), (false, 127, 0), (true, 127, 0), (false, 0, 1), (true, 0, 1), (false, 5, 2), (true, 0, 95)];
+    let a = alphabet.len();
+    let maxn = if thorough { 5 } else { 4 };
+    let mut t = Tally::default();
+    for n in 2..=maxn {
+        let total = a.pow(n as u32);
+        let tn: Tally = (0..total)
+            .into_par_iter()
+            .map(|mut idx| {
+                let mut t = Tally::default();
+                let mut b = Bits::default();
+                let mut negzeros = 0;
+                for _ in 0..n {
+                    let tok = alphabet[idx % a];
+                    idx /= a;
+                    if tok == (true, 0, 0) {
+                        negzeros += 1;
+                    }
+                    b.push_coeff(tok.0, tok.1, tok.2);
+                }
+                let tight = b.len().div_ceil(8);
+                let tag = format!("tokens:n={},negative-zeros={}", n, negzeros.min(3));
+                t.add(&b.to_bytes(tight, false), n, &tag);
+                t.add(&b.to_bytes(tight + 2, false), n, &tag);
+                t
+            })
+            .reduce(Tally::default, |mut x, y| {
+                x.merge(y);
+                x
+            });
+        t.merge(tn);
+    }
+    // production length: pairs of positions
+    for (n, l) in [(512usize, 625usize), (1024, 1239)] {
+        let pos: Vec<usize> = vec![0, 1, 2, 7, 8, n / 2, n - 3, n - 2, n - 1];
+        let mut jobs = vec![];
+        for i in 0..pos.len() {
+            for j in i + 1..pos.len() {
+                for ti in 0..a {
+                    for tj in 0..a {
+                        jobs.push((pos[i], pos[j], ti, tj));
+                    }
+                }
+            }
+        }
+        let tn: Tally = jobs
+            .par_iter()
+            .map(|&(pi, pj, ti, tj)| {
+                let mut t = Tally::default();
+                let mut b = Bits::default();
+                for k in 0..n {
+                    if k == pi {
+                        b.push_coeff(alphabet[ti].0, alphabet[ti].1, alphabet[ti].2);
+                    } else if k == pj {
+                        b.push_coeff(alphabet[tj].0, alphabet[tj].1, alphabet[tj].2);
+                    } else {
+                        b.push_value(((k as i64 * 37) % 201) - 100);
+                    }
+                }
+                if b.len() <= 8 * l {
+                    let nz = [ti, tj].iter().filter(|&&x| x == 1).count();
+                    t.add(&b.to_bytes(l, false), n, &format!("token-pair:n={},negative-zeros={}", n, nz));
+                }
+                t
+            })
+            .reduce(Tally::default, |mut x, y| {
+                x.merge(y);
+                x
+            });
+        t.merge(tn);
+    }
+    let mut part = Part::new("S6_token_sequences", &format!("every sequence of 2..={} coefficient tokens over the alphabet {{+0, -0, +-1, +-127, +-128, 261, a run of 95}} (tight length and two padding bytes); at (n, L) = (512, 625), (1024, 1239) every pair of the positions {{0,1,2,7,8,n/2,n-3,n-2,n-1}} x every pair of tokens inside an ordinary body: decompress vs Algorithm 18, accepted => canonical", maxn));
     part.exhaustive = true;
     t.into_part(ctx, part);
 }
@@ -425,6 +508,7 @@ pub fn run(tier: Tier) {
     }
     s4(&mut ctx);
     s5(&mut ctx, tier.thorough());
+    s6(&mut ctx, tier.thorough());
     ctx.sample(json!({"string":"0103ff","n":3,"reference":format!("{:?}", codec::decompress(&[1,3,0xff],3)),"impl":format!("{:?}", catch(|| fh::decompress(&[1,3,0xff],3)))}));
     ctx.sample(json!({"vector":[1,-129,12159],"budget":8,"impl":format!("{:?}", catch(|| fh::compress(&[1,-129,12159],16)).map(|c| c.map(|c| hex(&c))))}));
     ctx.assume("reference = bit-level Algorithms 17/18 with unbounded unary run (validated against PQClean comp_encode/comp_decode at setup)");
